@@ -1,12 +1,14 @@
 import Driver.Util
 import GrVerif.Model.Cmap
+import GrVerif.Proofs.CmapEq
 namespace Driver.Cmap
 open GrVerif GrVerif.Cmap Driver
 
 /-- order-independent digest: Σ (gid+1)·(usv·2654435761+12345) mod 2^64 -/
 def digestStep (h usv g : Nat) : Nat := (h + (g + 1) * (usv * 2654435761 + 12345)) % 18446744073709551616
 
-/-- `cmap <table hex>` → `d=<digest|noface|fault> c=<digest|noface|fault> diff=<first code point where the two differ|none>` -/
+/-- `cmap <table hex>` → `d=<digest|noface|fault> c=<digest|noface|fault> diff=<first code point where the two differ|none>
+sorted=<1|0|->`: whether the table meets the hypothesis of `cached_lookup_is_direct_lookup` (`-`: no direct cmap) -/
 def step (line : String) : String :=
   match words line with
   | ["cmap", h] =>
@@ -15,7 +17,7 @@ def step (line : String) : String :=
     | some t =>
       -- Face::Table / TtfUtil::CheckTable(cmap): at least the 12-byte header and version 0
       let okTable := t.size ≥ 12 ∧ t.getD 0 0 = 0 ∧ t.getD 1 0 = 0
-      if !okTable then "d=noface c=noface diff=none" else
+      if !okTable then "d=noface c=noface diff=none sorted=-" else
       match bmpSubtable t, smpSubtable t, buildCached t with
       | .ok bmp, .ok smp, .ok cc =>
         Id.run do
@@ -36,8 +38,9 @@ def step (line : String) : String :=
               | .error _ => fault := true
           let ds := if bmp.isNone then "noface" else if fault then "fault" else toString hd
           let dfs := match diff with | some u => hexN 1 u | none => "none"
-          return s!"d={ds} c={hc} diff={if bmp.isNone then "none" else dfs}"
-      | _, _, _ => "d=fault c=fault diff=none"
+          let srt := match bmp with | none => "-" | some ob => if sortedCmapB t ob smp then "1" else "0"
+          return s!"d={ds} c={hc} diff={if bmp.isNone then "none" else dfs} sorted={srt}"
+      | _, _, _ => "d=fault c=fault diff=none sorted=-"
   | ["cmapq", h, u] =>
     match parseHexUnits 2 h, parseHexNat u with
     | some t, some usv =>
